@@ -195,3 +195,38 @@ def replay(ctx, payload):
     bad = got["ans"] != model or got.get("swapped") != got["ans"] or got.get("mutated")
     print("REPRODUCED" if bad else "NOT-REPRODUCED")
     return 1 if bad else 0
+
+
+# ----------------------------------------------------------------------------- C15 adapter
+def c15_cases(rng, k):
+    out = []
+    for i in range(k):
+        n = rng.choice((3, 4, 5, 6))
+        if i % 3 == 0:
+            g = C.rand_dag_order_graph(rng, n, [("D>",), ("B",), ("U",), ("D>", "B")], density=0.5)
+            heads = set(b for a, b in g["D"]) | set(x for e in g["B"] for x in e)
+            g["U"] = [e for e in g["U"] if e[0] not in heads and e[1] not in heads]
+        else:
+            g = C.rand_dag_order_graph(rng, n, C.ADMG_STATES[1:], density=0.5)
+        nodes = list(range(n))
+        rng.shuffle(nodes)
+        out.append({"g": g, "X": [nodes[0]], "Y": [nodes[1]],
+                    "Z": sorted(v for v in nodes[2:] if rng.random() < 0.4)})
+    return out
+
+
+def c15_eval(case, fam, order_seed):
+    import random
+    c = dict(case)
+    c["g"] = C.shuffled_graph(random.Random(order_seed), case["g"])
+    c["fam"] = fam
+    got = impl(c)
+    if got.get("mutated"):
+        return "MUTATED"
+    if got.get("swapped") != got["ans"]:
+        return "ASYM:%s/%s" % (got["ans"], got["swapped"])
+    return got["ans"]
+
+
+def c15_expected(cases):
+    return C.lean_batch([line(c) for c in cases])
